@@ -1,27 +1,32 @@
 package main
 
 // tokenview.go — the tie between token BYTES and the tokens the validator model reasons about
-// (coq/TokenView.v, coq/Check_TokenView.v).
+// (coq/TokenBytes.v, coq/TokenView.v, coq/Check_TokenView.v).
 //
 // For every token of every world rendered by World.Coq (when enabled for the property being
 // generated) this records:
-//   - the token's root block bytes (what the Coq side decodes with Formats.token_decode),
+//   - the token's root block bytes (what the Coq side decodes with TokenBytes.token_decode_typed),
 //   - the `mkTok …` term rendered from the Go accessors (World.coqToken — the very term the
 //     world case file contains),
 //   - what is OBSERVED about the signature by calling ucan.VerifySignature with every key of the
 //     cast: once with the key's verifier presented under the token's own issuer DID (the raw
 //     signature check), once with the key's own did:key verifier,
-//   - for a sample of worlds, every (key, message, signature) the verifier primitives accepted,
+//   - for one world in tokenViewFullEvery, every (key, message, signature) the verifier
+//     primitives accepted (the Coq side then has to rebuild the exact signed message),
 //   - the world's tables: CID bytes -> link number, key id -> (DID bytes, algorithm name).
-// writeWorldCases flushes the records into tview_<prefix>_NN.v next to the world case files.
+// World.Coq only queues the world; writeWorldCases -> flushTokenViews does the work on all CPUs
+// and writes tview_<prop>_NN.v / tview_<prop>_full_NN.v next to the world case files, plus the
+// hand-written root blocks of tokenview_blocks.go.
 
 import (
 	"bytes"
 	"encoding/hex"
 	"fmt"
 	"os"
+	"runtime"
 	"sort"
 	"strings"
+	"sync"
 
 	"github.com/ipfs/go-cid"
 	"github.com/storacha/go-ucanto/did"
@@ -33,7 +38,7 @@ import (
 // properties whose generators emit the token views (VERIF_TOKENVIEW=all|none|C01,C05 overrides)
 var tokenViewProps = map[string]bool{"C01": true}
 
-// one world in tokenViewFullEvery is also checked with the verifier primitive's observed
+// one world in tokenViewFullEvery is checked with the verifier primitive's observed
 // (key, message, signature) table, which makes the model rebuild the exact signed message
 var tokenViewFullEvery = 8
 
@@ -59,16 +64,30 @@ func tokenViewEnabled() bool {
 	}
 }
 
-type tvCollector struct {
-	worlds []string          // rendered tvworld records (cheap check)
-	full   []string          // rendered tvworld records with observed primitive calls (full check)
-	dids   map[string][]byte // distinct DID byte strings met (for the per-file string table)
-	seen   map[*World]bool
+type tvPending struct {
+	w    *World
+	full bool
+}
+
+type tvResult struct {
+	rec    string
+	full   bool
+	dids   [][]byte
 	tokens int
 	stats  map[string]int
 }
 
-var tokenViews = &tvCollector{dids: map[string][]byte{}, seen: map[*World]bool{}, stats: map[string]int{}}
+var tvQueue []tvPending
+var tvSeen = map[*World]bool{}
+
+// tokenViewHook is called at the end of World.Coq (all link numbers of the world are assigned).
+func tokenViewHook(w *World) {
+	if !tokenViewEnabled() || tvSeen[w] {
+		return
+	}
+	tvSeen[w] = true
+	tvQueue = append(tvQueue, tvPending{w, tokenViewFullEvery > 0 && len(tvQueue)%tokenViewFullEvery == 0})
+}
 
 // asVerifier presents a key's verifier under another DID: ucan.VerifySignature then performs
 // exactly the raw check verifier.Verify(encodeSignaturePayload(token), token.Signature()).
@@ -130,15 +149,10 @@ func coqNList(xs []int) string {
 	return "[" + strings.Join(items, "; ") + "]"
 }
 
-// tokenViewHook is called at the end of World.Coq (all link numbers of the world are assigned).
-func tokenViewHook(w *World) {
-	if !tokenViewEnabled() || tokenViews.seen[w] {
-		return
-	}
-	tokenViews.seen[w] = true
-	c := tokenViews
+// tokenViewRecord renders every token of the world (full: also the accepted primitive calls).
+func tokenViewRecord(w *World, full bool) *tvResult {
+	res := &tvResult{full: full, stats: map[string]int{}}
 	keys := castKeys(w.Cast)
-	full := tokenViewFullEvery > 0 && len(c.worlds)%tokenViewFullEvery == 0
 	var calls []string
 	var toks []string
 	for _, name := range w.order {
@@ -156,7 +170,7 @@ func tokenViewHook(w *World) {
 				raw, _ = ucan.VerifySignature(d.Data(), asVerifier{vf, d.Issuer().DID()})
 				own, _ = ucan.VerifySignature(d.Data(), k.vf)
 			}); p != nil {
-				c.stats["verify_panics"]++
+				res.stats["verify_panics"]++
 			}
 			if raw {
 				sigkeys = append(sigkeys, k.id)
@@ -166,22 +180,28 @@ func tokenViewHook(w *World) {
 			}
 		}
 		if len(sigkeys) > 0 {
-			c.stats["tokens_with_a_verifying_key"]++
+			res.stats["tokens_with_a_verifying_key"]++
 		}
 		if len(sigkeys) > 0 && len(verifs) == 0 {
-			c.stats["tokens_signed_by_another_principal_or_wrapped"]++
+			res.stats["tokens_signed_by_another_principal_or_wrapped"]++
 		}
 		if m := d.Data().Model(); m != nil {
-			c.dids[string(m.Iss)] = m.Iss
-			c.dids[string(m.Aud)] = m.Aud
+			res.dids = append(res.dids, m.Iss, m.Aud)
 		}
-		c.tokens++
+		if b.Signer < 0 {
+			// a hand-written block: no construction knowledge, the signer is the observed one
+			b.Signer = 0
+			if len(sigkeys) > 0 {
+				b.Signer = sigkeys[0]
+			}
+		}
+		res.tokens++
 		toks = append(toks, fmt.Sprintf("{| tt_link := %d; tt_bytes := %s;\n    tt_tok := %s;\n    tt_sigkeys := %s; tt_verifs := %s |}",
 			w.lid(d.Link()), hx(d.Root().Bytes()), w.coqToken(b), coqNList(sigkeys), coqNList(verifs)))
 	}
 	var ks []string
 	for _, k := range keys {
-		c.dids[string(k.did.Bytes())] = k.did.Bytes()
+		res.dids = append(res.dids, k.did.Bytes())
 		ks = append(ks, fmt.Sprintf("(%d, %s, %s)", k.id, hx(k.did.Bytes()), hxs(k.alg)))
 	}
 	var ls []string
@@ -192,80 +212,132 @@ func tokenViewHook(w *World) {
 		}
 		ls = append(ls, fmt.Sprintf("(%s, %d)", hx(cd.Bytes()), i+1))
 	}
-	rec := fmt.Sprintf("{| tv_id := %d;\n  tv_links := [%s];\n  tv_keys := [%s];\n  tv_toks := %s;\n  tv_calls := [%s] |}",
+	res.rec = fmt.Sprintf("{| tv_id := %d;\n  tv_links := [%s];\n  tv_keys := [%s];\n  tv_toks := %s;\n  tv_calls := [%s] |}",
 		w.ID, strings.Join(ls, "; "), strings.Join(ks, "; "), coqList(toks), strings.Join(calls, ";\n   "))
-	if full {
-		c.full = append(c.full, rec)
-		c.stats["worlds_checked_with_observed_messages"]++
-	}
-	c.worlds = append(c.worlds, rec)
+	return res
 }
 
-// flushTokenViews writes the collected records as tview_<prefix>_NN.v (called by writeWorldCases).
-func flushTokenViews(dir, prefix string, shards int) error {
-	c := tokenViews
-	if len(c.worlds) == 0 {
-		return nil
+// tvFile writes one case file: interned packed constants, the DID table of the DIDs that occur in
+// it (computed once, as Check_Json does), the worlds and the evaluation.
+func tvFile(dir, name string, rs []*tvResult, fn string) error {
+	var sb bytes.Buffer
+	sb.WriteString("From Coq Require Import Uint63.\nFrom Ucanto Require Import Base Pattern Time Validator Check_CBOR Check_Json TokenView Check_TokenView.\nOpen Scope N_scope.\n")
+	var recs []string
+	dids := map[string]bool{}
+	for _, r := range rs {
+		recs = append(recs, r.rec)
+		for _, d := range r.dids {
+			if len(d) > 0 {
+				dids[string(d)] = true
+			}
+		}
 	}
-	defer func() {
-		tokenViews = &tvCollector{dids: map[string][]byte{}, seen: map[*World]bool{}, stats: map[string]int{}}
-	}()
-	if shards < 1 {
-		shards = 1
-	}
+	body := coqList(recs)
 	var dkeys []string
-	for k := range c.dids {
+	for k := range dids {
 		dkeys = append(dkeys, k)
 	}
 	sort.Strings(dkeys)
-	write := func(name string, recs []string, fn string) error {
-		var sb bytes.Buffer
-		sb.WriteString("From Coq Require Import Uint63.\nFrom Ucanto Require Import Base Pattern Time Validator Check_CBOR Check_Json TokenView Check_TokenView.\nOpen Scope N_scope.\n")
-		body := coqList(recs)
-		// the DID table of this file: only the DIDs that occur in it
-		var ds []string
-		for _, k := range dkeys {
-			h := hx(c.dids[k])
-			if len(c.dids[k]) > 0 && strings.Contains(body, h) {
-				ds = append(ds, h)
-			}
-		}
-		defs, out := internPacked("Definition dids : list bstr := " + coqList(ds) + ".\nDefinition worlds : list tvworld := " + body + ".\n")
-		sb.WriteString(defs)
-		sb.WriteString(out)
-		sb.WriteString("Definition tbl : list (bstr * bstr) := Eval vm_compute in (did_table dids).\n")
-		fmt.Fprintf(&sb, "Definition M := Eval vm_compute in %s tbl worlds.\nPrint M.\n", fn)
-		return writeFile(dir, name, sb.String())
+	var ds []string
+	for _, k := range dkeys {
+		ds = append(ds, hx([]byte(k)))
 	}
-	tag := strings.TrimPrefix(prefix, "cases_")
-	per := (len(c.worlds) + shards - 1) / shards
-	for k := 0; k*per < len(c.worlds); k++ {
+	defs, out := internPacked("Definition dids : list bstr := " + coqList(ds) + ".\nDefinition worlds : list tvworld := " + body + ".\n")
+	sb.WriteString(defs)
+	sb.WriteString(out)
+	sb.WriteString("Definition tbl : list (bstr * bstr) := Eval vm_compute in (did_table dids).\n")
+	fmt.Fprintf(&sb, "Definition M := Eval vm_compute in %s tbl worlds.\nPrint M.\n", fn)
+	return writeFile(dir, name, sb.String())
+}
+
+func tvShards(dir, pattern string, recs []*tvResult, shards int, fn string) error {
+	if len(recs) == 0 {
+		return nil
+	}
+	if shards > len(recs) {
+		shards = len(recs)
+	}
+	per := (len(recs) + shards - 1) / shards
+	for k := 0; k*per < len(recs); k++ {
 		hi := (k + 1) * per
-		if hi > len(c.worlds) {
-			hi = len(c.worlds)
+		if hi > len(recs) {
+			hi = len(recs)
 		}
-		if err := write(fmt.Sprintf("tview_%s_%02d.v", tag, k), c.worlds[k*per:hi], "check_views"); err != nil {
+		if err := tvFile(dir, fmt.Sprintf(pattern, k), recs[k*per:hi], fn); err != nil {
 			return err
 		}
 	}
-	fshards := shards
-	if fshards > len(c.full) {
-		fshards = len(c.full)
+	return nil
+}
+
+// flushTokenViews renders the queued worlds (in parallel) and writes the case files (called by
+// writeWorldCases).
+func flushTokenViews(dir, prefix string, shards int) error {
+	if len(tvQueue) == 0 {
+		return nil
 	}
-	if fshards > 0 {
-		per = (len(c.full) + fshards - 1) / fshards
-		for k := 0; k*per < len(c.full); k++ {
-			hi := (k + 1) * per
-			if hi > len(c.full) {
-				hi = len(c.full)
-			}
-			if err := write(fmt.Sprintf("tview_%s_full_%02d.v", tag, k), c.full[k*per:hi], "check_views_full"); err != nil {
-				return err
-			}
+	queue := tvQueue
+	tvQueue, tvSeen = nil, map[*World]bool{}
+	if shards < 1 {
+		shards = 1
+	}
+	tag := strings.TrimPrefix(prefix, "cases_")
+	results := make([]*tvResult, len(queue))
+	var wg sync.WaitGroup
+	sem := make(chan struct{}, runtime.NumCPU())
+	for i := range queue {
+		wg.Add(1)
+		sem <- struct{}{}
+		go func(i int) {
+			defer wg.Done()
+			defer func() { <-sem }()
+			results[i] = tokenViewRecord(queue[i].w, queue[i].full)
+		}(i)
+	}
+	wg.Wait()
+	var blockLabels map[string]string
+	var blockRes []*tvResult
+	if tag == "C01" || os.Getenv("VERIF_TOKENVIEW_BLOCKS") != "" {
+		blockLabels, blockRes = tvBlockWorlds(argSeed()) // hand-written root blocks (tokenview_blocks.go)
+		if err := writeJSON(dir, "tview_blocks_"+tag+".json", blockLabels); err != nil {
+			return err
 		}
 	}
-	st := map[string]any{"worlds": len(c.worlds), "tokens": c.tokens, "distinct_dids": len(c.dids)}
-	for k, v := range c.stats {
+	dids := map[string][]byte{}
+	stats := map[string]int{}
+	tokens := 0
+	var cheap, full []*tvResult
+	for _, r := range append(append([]*tvResult{}, results...), blockRes...) {
+		for _, d := range r.dids {
+			dids[string(d)] = d
+		}
+		for k, v := range r.stats {
+			stats[k] += v
+		}
+		tokens += r.tokens
+	}
+	for _, r := range results {
+		// a world checked against the observed (key, message, signature) table is not checked a second time
+		// against the per-token key sets: the former check is the stronger one
+		if r.full {
+			full = append(full, r)
+		} else {
+			cheap = append(cheap, r)
+		}
+	}
+	if err := tvShards(dir, "tview_"+tag+"_%02d.v", cheap, shards, "check_views"); err != nil {
+		return err
+	}
+	fsh := (shards + 3) / 4
+	if err := tvShards(dir, "tview_"+tag+"_full_%02d.v", full, fsh, "check_views_full"); err != nil {
+		return err
+	}
+	if err := tvShards(dir, "tview_"+tag+"_full_blocks_%02d.v", blockRes, len(blockRes), "check_views_full"); err != nil {
+		return err
+	}
+	st := map[string]any{"worlds": len(results), "tokens": tokens, "distinct_dids": len(dids),
+		"worlds_checked_with_observed_messages": len(full), "hand_written_blocks": len(blockLabels)}
+	for k, v := range stats {
 		st[k] = v
 	}
 	return writeJSON(dir, "tview_stats_"+tag+".json", st)
@@ -293,4 +365,16 @@ func internPacked(body string) (defs string, out string) {
 		return n
 	})
 	return sb.String(), out
+}
+
+// argSeed: the -seed of the running `gen` command (1 when absent)
+func argSeed() int64 {
+	for i, a := range os.Args {
+		if (a == "-seed" || a == "--seed") && i+1 < len(os.Args) {
+			var v int64
+			fmt.Sscan(os.Args[i+1], &v)
+			return v
+		}
+	}
+	return 1
 }
